@@ -3,7 +3,7 @@
    Link.v (leaf functions regenerated from the source = model leafs).
    to_double (strtod on the accumulated number text), print16 (the 16-digit printer) and to_float
    are parameters of the model: they appear as universally quantified arguments. *)
-From CppcmsV Require Import Base.Tac Base.CSem Base.Sweep C11.Defs C11.Proofs1 C11.Link gen.Gen_json gen.Gen_json_esc.
+From CppcmsV Require Import Base.Tac Base.CSem Base.Sweep C11.Defs C11.Proofs1 C11.Proofs2 C11.Link gen.Gen_json gen.Gen_json_esc.
 Local Open Scope N_scope.
 
 (* 1. parsing any byte string terminates: the fuel S (length s) of the loop is never exhausted *)
@@ -18,6 +18,48 @@ Theorem tokenizer_consumes : forall to_double s cm,
   (length (tok_rest (next to_double cm s)) <= pred (length s))%nat.
 Proof. exact Proofs1.next_len. Qed.
 Print Assumptions tokenizer_consumes.
+
+(* 2. an accepted parse yields a tree whose strings and keys are valid UTF-8 (utf8::validate), whose objects
+      have strictly increasing - hence pairwise different - keys, without undefined members, nested at most
+      max_depth = 512 deep; the bound is tight *)
+Theorem parse_sound : forall to_double full s v rest,
+  parse to_double full s = POk v rest ->
+  strings_ok utf8_valid v = true /\ maps_ok v = true /\ no_undef v = true /\ (depth v <= max_depth)%nat.
+Proof. exact Proofs2.parse_sound. Qed.
+Print Assumptions parse_sound.
+Theorem parsed_keys_unique : forall to_double full s v rest,
+  parse to_double full s = POk v rest -> keys_unique v.
+Proof. intros td full s v rest H. apply maps_ok_unique. apply (Proofs2.parse_sound td full s v rest H). Qed.
+Print Assumptions parsed_keys_unique.
+Theorem sorted_keys_are_unique : forall (m : list (list N * jv)), keys_sorted m = true -> NoDup (map fst m).
+Proof. exact (@sorted_NoDup jv). Qed.
+Print Assumptions sorted_keys_are_unique.
+Fixpoint nest (n : nat) : jv := match n with O => JArr [] | S k => JArr [nest k] end.
+Theorem depth_bound_tight : forall to_double,
+  parse to_double true (repeat 91 512 ++ repeat 93 512) = POk (nest 511) [] /\
+  parse to_double true (repeat 91 513 ++ repeat 93 513) = PFail 1.
+Proof. intros. split; vm_compute; reflexivity. Qed.
+Print Assumptions depth_bound_tight.
+Theorem control_char_in_string_rejected : forall pend c r, c <= 31 -> scan_string pend (c :: r) = None.
+Proof.
+  intros pend c r H. cbn [scan_string]. destruct (is_some pend && negb (c =? 92)); [reflexivity|].
+  apply N.leb_le in H. rewrite H. reflexivity.
+Qed.
+Print Assumptions control_char_in_string_rejected.
+Theorem unpaired_first_surrogate_rejected : forall w c r, c <> 92 -> scan_string (Some w) (c :: r) = None.
+Proof.
+  intros w c r H. cbn [scan_string is_some]. apply N.eqb_neq in H. rewrite H. reflexivity.
+Qed.
+Print Assumptions unpaired_first_surrogate_rejected.
+(* {"a":[1,"\u00e9"],"a":2} is rejected (duplicate key), {"b":null,"a":"\ud83d\ude00"} gives sorted keys
+   and the 4-byte encoding of U+1F600; "\udc00" (lone second surrogate) and "\ud800x" are rejected *)
+Example parse_sound_nonvacuous : forall to_double,
+  parse to_double true [123;34;97;34;58;110;117;108;108;44;34;97;34;58;116;114;117;101;125] = PFail 1 /\
+  parse to_double true [123;34;98;34;58;110;117;108;108;44;34;97;34;58;34;92;117;100;56;51;100;92;117;100;101;48;48;34;125]
+    = POk (JObj [([97], JStr [240;159;152;128]); ([98], JNull)]) [] /\
+  parse to_double true [34;92;117;100;99;48;48;34] = PFail 1 /\
+  parse to_double true [34;92;117;100;56;48;48;120;34] = PFail 1.
+Proof. intros. repeat split; vm_compute; reflexivity. Qed.
 
 (* 4. a failed load leaves the target untouched *)
 Theorem fail_keeps_target : forall to_double target full s t,
